@@ -803,6 +803,20 @@ fn build_and_broadcast_compact_block(
     }
 }
 
+/// Whether a `CompactBlock` must be refused before any of its fields is interpreted.
+///
+/// The message is decoded in compatible mode, which does not look into extra fields: it may have at most one
+/// (the extension) and that one must be a well-formed `Bytes`, because `extension()` (used by
+/// `reconstruct_block`) panics otherwise.
+pub(crate) fn is_malformed_compact_block(reader: &packed::CompactBlockReader<'_>) -> bool {
+    reader.count_extra_fields() > 1
+        || reader
+            .to_entity()
+            .extra_field(0)
+            .map(|data| packed::BytesReader::verify(&data, false).is_err())
+            .unwrap_or(false)
+}
+
 #[async_trait]
 impl CKBProtocolHandler for Relayer {
     async fn init(&mut self, nc: Arc<dyn CKBProtocolContext + Sync>) {
@@ -832,7 +846,7 @@ impl CKBProtocolHandler for Relayer {
             Ok(msg) => {
                 let item = msg.to_enum();
                 if let packed::RelayMessageUnionReader::CompactBlock(ref reader) = item {
-                    if reader.count_extra_fields() > 1 {
+                    if is_malformed_compact_block(reader) {
                         info_target!(
                             crate::LOG_TARGET_RELAY,
                             "Peer {} sends us a malformed message: \
